@@ -544,7 +544,7 @@ var guardedRecursion = map[string]recGuard{
 
 // hasDepthGuard: fn compares a value whose name/field contains `what` with a bound and returns
 // on the exceeding edge, and the same quantity is incremented in fn.
-func hasDepthGuard(fn *ssa.Function, what string) bool {
+func hasDepthGuard(fn *ssa.Function, what string, others ...*ssa.Function) bool {
 	isQty := func(v ssa.Value) bool {
 		if fr, ok := eng.LoadOfField(v); ok && strings.Contains(strings.ToLower(fr.Field), strings.ToLower(what)) {
 			return true
@@ -555,7 +555,7 @@ func hasDepthGuard(fn *ssa.Function, what string) bool {
 		return false
 	}
 	cmp, inc := false, false
-	eng.Instrs(fn, false, func(in ssa.Instruction) {
+	scan := func(in ssa.Instruction) {
 		switch x := in.(type) {
 		case *ssa.BinOp:
 			switch x.Op {
@@ -575,7 +575,14 @@ func hasDepthGuard(fn *ssa.Function, what string) bool {
 				}
 			}
 		}
-	})
+	}
+	// the bound test and the +1 may sit in different members of the cycle (loop body extracted into a method)
+	eng.Instrs(fn, false, scan)
+	for _, o := range others {
+		if o != fn {
+			eng.Instrs(o, false, scan)
+		}
+	}
 	return cmp && inc
 }
 
@@ -628,7 +635,40 @@ func ruleRecGuard(c *eng.Ctx) {
 			c.Ok(R, key, pos, "accepted: "+why)
 			continue
 		}
-		if g, ok := guardedRecursion[key]; ok {
+		g, ok := guardedRecursion[key]
+		if !ok {
+			// the cycle gained or lost a helper (a loop body extracted into a method, a helper inlined):
+			// it is the same recursion when it contains the function that carries a listed guard, or
+			// all members of a listed tree recursion
+			member := map[string]bool{}
+			for _, n := range names {
+				member[n] = true
+			}
+			for k, cand := range guardedRecursion {
+				_ = k
+				if member[cand.fn] {
+					g, ok = cand, true
+				}
+			}
+			if !ok {
+				for k, why := range treeRecursion {
+					all := true
+					for _, m := range strings.Split(k, " | ") {
+						if !member[m] {
+							all = false
+						}
+					}
+					if all {
+						c.Ok(R, key, pos, "accepted (listed cycle "+k+" plus helpers): "+why)
+						ok = true
+					}
+				}
+				if ok {
+					continue
+				}
+			}
+		}
+		if ok {
 			gf := c.P.Func(g.fn)
 			if gf == nil {
 				c.Viol(R, key, pos, "the function that carried the recursion guard ("+g.fn+") no longer exists")
@@ -636,7 +676,7 @@ func ruleRecGuard(c *eng.Ctx) {
 			}
 			okG := false
 			if g.kind == "depth" {
-				okG = hasDepthGuard(gf, g.what)
+				okG = hasDepthGuard(gf, g.what, scc...)
 			} else {
 				okG = hasSetGuard(gf, g.what)
 			}
